@@ -798,4 +798,4 @@ pub fn from_file(file_name: &str) -> Result<Config, Error> {
 
 #[cfg(feature = "breard_r_acmed_verif")]
 #[path = "/verif/probe/config_probe.rs"]
-mod verif;
+pub(crate) mod verif;
